@@ -14,7 +14,7 @@ Definition bad_res (r: res) : bool := match r with RPanic | RHang | ROutOfFuel =
 (* the harness stops a case at the first panic / hang *)
 Fixpoint cut (l: list (res * nat)) : list (res * nat) :=
   match l with [] => [] | (r, n) :: t => if bad_res r then [(r, n)] else (r, n) :: cut t end.
-Definition show_poll (rn: res * nat) : list N := let v := show_res (fst rn) ++ [N.of_nat (snd rn); 0] in nlen v :: v.
+Definition show_poll (rn: res * nat) : list N := let v := show_res (fst rn) ++ [N.of_nat (snd rn); 0; 0] in nlen v :: v.
 Definition show_polls (l: list (res * nat)) : list N := nlen l :: concat (map show_poll l).
 
 (* ---------- device scripts ---------- *)
@@ -52,7 +52,7 @@ Definition run_RCV (case: list N) : list N :=
   | None => BAD
   end.
 
-(* parsed poll entries: (result tokens, left, heap) *)
+(* parsed poll entries: (result tokens, left, heap held after the poll); the peak heap during the poll is kept in a separate list *)
 Fixpoint parse_polls_n (k: nat) (l: list N) : option (list (list N * N * N) * list N) :=
   match k with
   | O => Some ([], l)
@@ -60,7 +60,7 @@ Fixpoint parse_polls_n (k: nat) (l: list N) : option (list (list N * N * N) * li
             | n :: r => match take n r with
                         | Some (v, r') =>
                             match rev_append v [] with
-                            | heap :: lft :: rres => match parse_polls_n k' r' with
+                            | _ :: heap :: lft :: rres => match parse_polls_n k' r' with
                                                       | Some (ps, r'') => Some ((rev_append rres [], lft, heap) :: ps, r'')
                                                       | None => None end
                             | _ => None
@@ -70,6 +70,16 @@ Fixpoint parse_polls_n (k: nat) (l: list N) : option (list (list N * N * N) * li
   end.
 Definition parse_polls (l: list N) : option (list (list N * N * N) * list N) :=
   match l with n :: r => parse_polls_n (N.to_nat n) r | [] => None end.
+Fixpoint parse_peaks_n (k: nat) (l: list N) : list N :=
+  match k with
+  | O => []
+  | S k' => match l with
+            | n :: r => match take n r with
+                        | Some (v, r') => last v 0 :: parse_peaks_n k' r'
+                        | None => [] end
+            | [] => [] end
+  end.
+Definition parse_peaks (l: list N) : list N := match l with n :: r => parse_peaks_n (N.to_nat n) r | [] => [] end.
 Definition res_class (r: list N) : N := match r with c :: _ => c | [] => 9 end.     (* 0 Pkt 1 Err 2 None 3 Panic 4 Hang 5 crash/oof *)
 
 (* ---------- C06 ---------- *)
@@ -216,15 +226,32 @@ Definition c19_eval (case obs: list N) : list N * list N :=
   | Some (link, _, toks), Some (ps, []) =>
       match held_link_tokens link toks with
       | Some hs =>
+          (* clauses that need no reference: the absolute bound, and nothing held right after a packet was
+             delivered or a reassembly error was reported (the implementation's own results) *)
+          let uni (e: list N * N * N) :=
+            let '(r, _, heap) := e in
+            (heap <=? 96 + 40 * 4096) &&
+            (match r with 0 :: _ => heap =? 0 | [1; c] => negb ((10 <=? c) && (c <=? 15)) || (heap =? 0) | _ => true end) in
+          let bad_uni := filter (fun e => negb (uni e)) ps in
+          (* a poll that never returns while its heap grows by more than any link frame needs (255-byte body buffer,
+             its decode buffer and slack): an unbounded raw frame buffer *)
+          let peaks := parse_peaks obs in
+          let heaps_before := 0 :: map (fun e => snd e) ps in
+          let grow := filter (fun t => let '((e, pk), hb) := t in (res_class (fst (fst e)) =? 4) && (hb + 700 <? pk)) (combine (combine ps peaks) heaps_before) in
+          (* the finer bound (proportional to the packet in flight) uses the model's bookkeeping; it applies
+             when the implementation's poll results are the model's, so that the model state is the receiver's *)
+          let same := list_eqb (concat (map (fun e => fst (fst e)) ps)) (concat (map (fun h => show_res (fst (fst h))) hs)) && (length ps =? length hs)%nat in
           let rows := combine hs ps in
-          let okrow (row: (res * N * N) * (list N * N * N)) :=
+          let fine (row: (res * N * N) * (list N * N * N)) :=
             let '((r, held, ann), (_, _, heap)) := row in
             (heap <=? 96 + 40 * held) && ((0 <? held) || (heap =? 0)) && (held <=? ann) && (ann <=? 4096) in
-          let bad := filter (fun row => negb (okrow row)) rows in
-          let released := forallb (fun row => let '((r, held, _), _) := row in
-                                    match r with RPacket _ | RErr (LBuilder _) => held =? 0 | _ => true end) rows in
-          ([b2N (forallb okrow rows); b2N released],
-           if negb released then [141] else match bad with [] => [] | (((_, held, ann), (_, lft, heap))) :: _ => [140; held; ann; heap; lft] end)
+          let bad_fine := if same then filter (fun row => negb (fine row)) rows else [] in
+          ([b2N (match bad_uni with [] => true | _ => false end); b2N (match bad_fine with [] => true | _ => false end); b2N (match grow with [] => true | _ => false end)],
+           match grow with ((e, pk), hb) :: _ => [142; pk; hb; snd (fst e)] | [] =>
+           match bad_uni with
+           | (r, lft, heap) :: _ => [141; res_class r; heap; lft]
+           | [] => match bad_fine with [] => [] | (((_, held, ann), (_, lft, heap))) :: _ => [140; held; ann; heap; lft] end
+           end end)
       | None => ([3054], [3054])
       end
   | _, _ => ([3054], [3054])
